@@ -148,6 +148,32 @@ fn c41_b_chunk_extension_ignored() {
     assert!(out.len() == 1 && out[0] == x);
 }
 
+/// quick-tier variant: fixed extension text `;x=1`, symbolic payload byte
+#[kani::proof]
+#[kani::stub(std::str::from_utf8, stub_from_utf8)]
+#[kani::stub(str::trim, stub_trim)]
+#[kani::stub(usize::from_str_radix, stub_from_str_radix)]
+#[kani::unwind(16)]
+fn c41_b_chunk_extension_fixed_text() {
+    let x: u8 = kani::any();
+    let wire = [b'1', b';', b'x', b'=', b'1', b'\r', b'\n', x, b'\r', b'\n', b'0', b'\r', b'\n', b'\r', b'\n'];
+    let out = dechunk(&wire);
+    assert!(out.is_some());
+    let out = out.unwrap();
+    assert!(out.len() == 1 && out[0] == x);
+}
+/// quick-tier variant: size line "zz" is not hexadecimal
+#[kani::proof]
+#[kani::stub(std::str::from_utf8, stub_from_utf8)]
+#[kani::stub(str::trim, stub_trim)]
+#[kani::stub(usize::from_str_radix, stub_from_str_radix)]
+#[kani::unwind(12)]
+fn c41_b_non_hex_size_fixed_text() {
+    let x: u8 = kani::any();
+    let wire = [b'z', b'z', b'\r', b'\n', x, b'\r', b'\n', b'0', b'\r', b'\n', b'\r', b'\n'];
+    assert!(dechunk(&wire).is_none());
+}
+
 /// (c) chunk data not followed by CRLF is malformed framing: rejected.
 #[kani::proof]
 #[kani::stub(std::str::from_utf8, stub_from_utf8)]
